@@ -20,6 +20,7 @@ SeqRange(q) == {q[i] : i \in DOMAIN q}
 
 Logged(r, lay) ==
   [st |-> r.st, pred |-> r.pred, succ |-> r.succ, sur |-> r.sur,
+   fset |-> [n \in NodesOf(lay) |-> IF "fs" \in DOMAIN r THEN SeqRange(r.fs[n]) \ {Nil} ELSE {}],
    store |-> [n \in NodesOf(lay) |-> [k \in KeysOf(lay) |-> [v |-> r.store[n][k].v, kids |-> SeqRange(r.store[n][k].kids)]]]]
 (* the pointers of a node that has Left are not compared: its parked maintenance loops run one last
    stabilize / checkPredecessor when Leave() stops them, which no other node can observe *)
@@ -27,7 +28,7 @@ Phys(x) == [st |-> x.st,
             pred |-> [n \in DOMAIN x.st |-> IF x.st[n] = "Left" THEN Nil ELSE x.pred[n]],
             succ |-> [n \in DOMAIN x.st |-> IF x.st[n] = "Left" THEN <<>> ELSE x.succ[n]],
             sur |-> x.sur, store |-> x.store]
-Resync(x, lg) == [x EXCEPT !.st = lg.st, !.pred = lg.pred, !.succ = lg.succ, !.sur = lg.sur, !.store = lg.store]
+Resync(x, lg) == [x EXCEPT !.st = lg.st, !.pred = lg.pred, !.succ = lg.succ, !.sur = lg.sur, !.store = lg.store, !.fset = lg.fset]
 
 Blank(lay) == InitState(lay, {})
 
